@@ -266,6 +266,15 @@ impl Objects {
             }),
             "ParseErr" => {
                 let n = e["i"].as_u64().unwrap_or(0) as usize;
+                if n % 2 == 0 {
+                    // a feature file that cannot be read
+                    let err = gherkin::Feature::parse_path(
+                        format!("/nonexistent/perr{n}.feature"),
+                        gherkin::GherkinEnv::default(),
+                    )
+                    .expect_err("harness: unreadable path parsed");
+                    return Err(parser::Error::Parsing(Arc::new(err)));
+                }
                 Err(parser::Error::ExampleExpansion(Arc::new(
                     ExpandExamplesError {
                         pos: gherkin::LineCol { line: n, col: 1 },
